@@ -141,6 +141,13 @@ def run(ctx):
                         found.add(mm.group(1))
                 found_rel = {f for f in found if f in set().union(*MACH.values())}
                 if not found_rel:
+                    # the arm does not use any machine operation of the table: acceptable only when it is a plain
+                    # rejection (returns an error and calls nothing); otherwise it computes the operator some other way
+                    calls_in = sorted({(fn.call_name(rb) or '').split('::')[-1] for rb in region if fn.term(rb)['k'] == 'call'} - {'', 'branch', 'from_residual', 'ok_or', 'try_from', 'map_err', 'from'})
+                    if calls_in and opn in ('Add', 'Sub', 'Mul', 'Div', 'Mod'):
+                        r1.saw()
+                        r1.bad('kernel|%s|%s' % (fname, opn), 'in %s the arm for BinaryOp::%s does not use the machine operation %s but %s: the operator no longer has its IEC meaning (MOD, for instance, is the remainder of the truncating division: -7 MOD 3 = -1)' % (
+                            fname, opn, sorted(MACH[opn]), calls_in), loc=fn.loc(tb))
                     continue
                 r1.saw()
                 key = 'kernel|%s|%s' % (fname, opn)
@@ -466,6 +473,52 @@ def run(ctx):
         r5.note('** is right-associative (14, 13) as documented in docs/specs/10-runtime.md; docs/specs/05-expressions.md lists it left-to-right (spec inconsistency, recorded in DESIGN.md)')
 
     r6 = ctx.rule('C02.R6', 'argument binding: output values are written back after the callee frame was popped', floor=3)
+    sr = fx.adts.get('trust_runtime::eval::stmt::StmtResult')
+    sr_names = [v['name'] for v in sr['variants']] if sr else []
+    for cf in ('trust_runtime::eval::call_function', 'trust_runtime::eval::call_method', 'trust_runtime::eval::call_function_block'):
+        if cf not in fx.fns or not sr_names:
+            continue
+        fn = F(fx.fns[cf])
+        r6.saw()
+        short = cf.split('::')[-1]
+        wov = set(fn.blocks_calling(lambda n: n.endswith('eval::write_output_values')))
+        body = fn.blocks_calling(lambda n: re.search(r'eval::(stmt::)?exec_block$', n) is not None)
+        if not wov or not body:
+            r6.bad('copy-out-on-normal-completion|%s' % short, '%s no longer runs the callee body / writes outputs back (shape not recognised)' % short, loc=fn.loc(0))
+            continue
+        # switches on the discriminant of the body result (a StmtResult-typed local)
+        missing = set()
+        seen_sw = False
+        for b_ in fn.g:
+            t = fn.term(b_)
+            if t['k'] != 'switch':
+                continue
+            l = op_local(t['d'])
+            dd = fn.defs.get(l, []) if l is not None else []
+            if not (len(dd) == 1 and dd[0][1] == 'A' and dd[0][2][0] == 'discr'):
+                continue
+            if not fn.local_ty(dd[0][2][1][0]).endswith('eval::stmt::StmtResult'):
+                continue
+            if not (wov & fn.reach([b_])):
+                continue        # a result match after the write-back (e.g. the final control-flow check)
+            ex = {int(v): tb for v, tb in t['v']}
+            alls = set(ex.values()) | ({t['o']} if t.get('o') is not None else set())
+            for vname in ('Continue', 'Return'):
+                vi = sr_names.index(vname)
+                tgt = ex.get(vi, t.get('o'))
+                if tgt is None:
+                    continue
+                region = fn.reach([tgt])
+                # this switch decides about the copy-out when its outcomes differ in reaching the write-back
+                reach_w = [bool(wov & fn.reach([x])) for x in alls]
+                if any(reach_w) and not all(reach_w):
+                    seen_sw = True
+                    if not (wov & region):
+                        missing.add(vname)
+        if missing:
+            r6.bad('copy-out-on-normal-completion|%s' % short, '%s does not copy the outputs back when the body ended with %s: `=>` outputs and VAR_IN_OUT write-backs of that call are dropped silently' % (short, sorted(missing)), loc=fn.loc(body[0]))
+        else:
+            r6.ok('copy-out-on-normal-completion|%s' % short, detail='decided by a result switch' if seen_sw else 'unconditional after the body')
     for cf in ('trust_runtime::eval::call_function', 'trust_runtime::eval::call_method', 'trust_runtime::eval::call_function_block'):
         rec = fx.fns.get(cf)
         if rec is None:
